@@ -1035,6 +1035,7 @@ def _val_to_numpy(
         else:
             return np.asarray(val)
 
+    arrow = None
     try:
         arrow: pa.Array = to_arrow(val)
         is_chunked = isinstance(
@@ -1044,7 +1045,11 @@ def _val_to_numpy(
     except TypeError:
         is_chunked = False
 
-    if is_chunked:
+    if arrow is not None and pa.types.is_null(arrow.type):
+        # an arrow / polars array of type null holds nothing but nulls (arrow cannot convert it)
+        lengths = [len(c) for c in arrow.chunks] if is_chunked else [len(arrow)]
+        val_list = [np.full(n, np.nan) for n in lengths]
+    elif is_chunked:
         if arrow.null_count:
             # nulls force a copy; convert as a whole so that every chunk gets the same dtype
             whole = pa.concat_arrays(arrow.chunks).to_numpy(zero_copy_only=False)
